@@ -507,7 +507,8 @@ def overflow_cols(rng, kind, quick=False, side=None):
     kinds: many_atoms (> 99999 rows), edge_atoms (rows + chains around 99999), many_chains (63..70 chains),
     edge_chains (61..63 multi-character chains), many_residues (> 9999 residues in a chain), edge_residues
     (exactly 9999 / 10000), big_serial (ids > 99999 on a small table), big_numbers (auth_seq_id > 9999),
-    interleaved (rows + chains <= 99999 < rows + chain changes).
+    interleaved (rows + chains <= 99999 < rows + chain changes), spread_residues (each chain <= 9999 residues,
+    > 9999 distinct residue keys over all chains).
     `side` 0 / 1 selects the fitting / the refusing side of a boundary for the edge_ kinds"""
     n_at, chains, res_per_chain = 30, ["A"], None
     serial0, num0 = 1, 1
@@ -534,6 +535,11 @@ def overflow_cols(rng, kind, quick=False, side=None):
         chains, n_at, num0 = ["A", "B"][: rng.randint(1, 2)], rng.randint(2, 60), rng.choice([9995, 10000, 50000])
     elif kind == "interleaved":
         chains, n_at = ["AA", "B"], rng.choice([50001, 50007, 60000])
+    elif kind == "spread_residues":
+        # every chain has <= 9999 residues (a fit exists) but the residue keys of all chains together are more
+        # than 9999 distinct (number, icode) pairs: numbering that continues across chains
+        chains = ["AA", "B", "CC"][: rng.randint(2, 3)]
+        n_at, res_per_chain = rng.choice([10002, 12000, 15000]), "spread"
     else:
         raise ValueError(kind)
     per = max(1, n_at // len(chains))
@@ -548,7 +554,11 @@ def overflow_cols(rng, kind, quick=False, side=None):
             k = per if ci < len(chains) - 1 else n_at - per * (len(chains) - 1)
             for j in range(k):
                 chain_col.append(ch)
-                if res_per_chain == "all" and ci == 0:
+                if res_per_chain == "spread":
+                    # one atom per residue, numbering continues from chain to chain
+                    num_col.append(num0 + len(num_col))
+                    ic_col.append(None)
+                elif res_per_chain == "all" and ci == 0:
                     # every atom its own residue; insertion codes make some of them share a number
                     num_col.append(num0 + j // 2)
                     ic_col.append("A" if j % 2 else None)
